@@ -129,6 +129,7 @@ def solve_scalar(
 
 def solve_sylvester_2nd_quant(
     eigs: tuple[tuple[sympy.Expr, ...], ...],
+    hermitian: bool = True,
 ) -> Callable:
     """Solve a Sylvester equation for 2nd quantized diagonal Hamiltonians.
 
@@ -136,6 +137,10 @@ def solve_sylvester_2nd_quant(
     ----------
     eigs :
         Tuple of lists of expressions representing the diagonal Hamiltonian blocks.
+    hermitian :
+        Whether the right hand sides of diagonal blocks are Hermitian, as in the
+        Hermitian algorithm. If so, only half of each diagonal block is solved and
+        the rest follows by antihermiticity of the solution.
 
     Returns
     -------
@@ -169,17 +174,17 @@ def solve_sylvester_2nd_quant(
         for i in range(Y.rows):
             for j in range(Y.cols):
                 # Only compute upper triangle of diagonal blocks
-                if index[0] != index[1] or i >= j:
+                if not hermitian or index[0] != index[1] or i >= j:
                     result[i, j] = solve_scalar(
                         Y[i, j],
                         eigs_A[i],
                         eigs_B[j],
-                        diagonal=(i == j and index[0] == index[1]),
+                        diagonal=(hermitian and i == j and index[0] == index[1]),
                     )
         for i in range(Y.rows):
             for j in range(Y.cols):
                 # Fill the lower triangle with minus conjugate transpose
-                if index[0] == index[1] and i < j:
+                if hermitian and index[0] == index[1] and i < j:
                     result[i, j] = -result[j, i].adjoint()
 
         return result
